@@ -492,20 +492,17 @@ impl DtlsInner {
                 Ok(None) => break,
                 Ok(Some(record)) => {
                     // Epoch 0 is the unprotected handshake epoch: application data is never
-                    // valid in it. Once keys exist, alerts are only valid under those keys,
-                    // and once the handshake is over nothing is valid in epoch 0 any more:
-                    // such records are unauthenticated and are silently discarded.
+                    // valid in it. Once keys exist the only thing the peer still sends in
+                    // epoch 0 is its ChangeCipherSpec (new handshake messages and alerts
+                    // come under the keys, retransmitted ones are duplicates), and once the
+                    // handshake is over nothing is valid in epoch 0 any more: such records
+                    // are unauthenticated and are silently discarded.
                     if record.epoch == 0
                         && (record.content_type == ContentType::ApplicationData
                             || ctx.session_keys.is_some())
                     {
                         let handshaking = matches!(*self.state.lock(), DtlsState::Handshaking);
-                        if !handshaking
-                            || matches!(
-                                record.content_type,
-                                ContentType::ApplicationData | ContentType::Alert
-                            )
-                        {
+                        if !handshaking || record.content_type != ContentType::ChangeCipherSpec {
                             continue;
                         }
                     }
